@@ -219,6 +219,9 @@ BWORLDS = {
     "syd_taxi+ams_air": ({"A": Traj("batch_A_taxi", -33.94, 151.17, 340, 12, surface_until=10 ** 9, taxi_kt=12), "B": Traj("batch_B_450kt", 52.3, 4.8, 45, 450)}, None),
     "ams_taxi+lhr_taxi@ams": ({"A": Traj("batch_A_taxi", 52.31, 4.76, 10, 15, surface_until=10 ** 9, taxi_kt=15), "B": Traj("batch_B_taxi", 51.47, -0.46, 270, 15, surface_until=10 ** 9, taxi_kt=15)}, (52.3, 4.7)),
 }
+# a world may carry a third element: the spacing of the messages inside one call and which time the caller passes as tnow
+BWORLDS["eu_batch_spans_40s_tnow_is_batch_start"] = (BWORLDS["eu"][0], None, {"gap": 40.0, "tnow": "first"})
+BWORLDS["eu_batch_spans_12s_tnow_is_batch_start"] = (BWORLDS["eu"][0], None, {"gap": 12.0, "tnow": "first"})
 BW = ["eu"]
 BT = BWORLDS["eu"][0]
 BICAO = {"A": 0x4840D6, "B": 0x3C6444}
@@ -239,18 +242,20 @@ def batch_msg(who, oe, t):
 def batch_step(d, now, batch):
     """one process_raw call carrying 1-2 ADS-B messages 0.3 s apart; returns (decode, now', exc, [(who, t_msg)])."""
     ts, ms, info = [], [], []
+    opt = BWORLDS[BW[0]][2] if len(BWORLDS[BW[0]]) > 2 else {}
+    gap = opt.get("gap", 0.3)
     for i, (who, oe) in enumerate(batch):
-        t = now + 1.0 + 0.3 * i
+        t = now + 1.0 + gap * i
         ts.append(t)
         ms.append(batch_msg(who, oe, t))
         info.append((who, t))
     d2 = copy.deepcopy(d)
     try:
-        d2.process_raw(ts, ms, [], [], tnow=ts[-1] + 0.2)
+        d2.process_raw(ts, ms, [], [], tnow=(ts[0] if opt.get("tnow") == "first" else ts[-1] + 0.2))
         exc = None
     except Exception as e:  # noqa: BLE001
         exc = type(e).__name__
-    return d2, now + 1.0, exc, info
+    return d2, (now + 1.0 if gap <= 0.5 else ts[-1]), exc, info
 
 
 def batch_inv(d, exc, info):
